@@ -1,16 +1,33 @@
 //! C03: structural changes reach clients atomically and in server order.
 use crate::{
+    cells,
     check::{CellPlan, Tier, plan},
-    repl::{Env, MutMenu, Oracles, ReplCell},
+    repl::{Env, MutMenu, Oracles},
     sim::*,
 };
 
 pub fn cells(tier: Tier) -> Vec<CellPlan> {
+    let o = Oracles { c03: true, ..Default::default() };
+    let q = tier.quick();
+    let env = Env { hold_acks: false, hold_updates: 2, mutations: MutMenu::Hold, leftover_choice: false };
     let mut v = Vec::new();
-    let mut c = super::c01::base("c03-struct-1c", "C03");
-    c.oracles = Oracles { c03: true, ..Default::default() };
-    c.env = Env { hold_acks: false, hold_updates: 2, mutations: MutMenu::Hold, leftover_choice: false };
-    v.push(plan(c, if tier.quick() { 1 } else { 2 }, 1.0));
+    let mut add = |mut c: crate::repl::ReplCell, dev_q: u32, dev_t: u32, rounds_t: usize, w: f64| {
+        c.oracles = o.clone();
+        c.env = env.clone();
+        if !q {
+            c.rounds = rounds_t;
+        }
+        v.push(plan(c, if q { dev_q } else { dev_t }, w));
+    };
+    add(cells::single("C03"), 1, 2, 4, 2.0);
+    add(cells::two("C03"), 1, 2, 4, 2.0);
+    add(cells::visibility("C03", Vis::Blacklist, 1), 1, 2, 4, 2.0);
+    add(cells::visibility("C03", Vis::Whitelist, 1), 1, 2, 4, 2.0);
+    add(cells::visibility("C03", Vis::Blacklist, 2), 1, 1, 3, 2.0);
+    add(cells::refs("C03"), 1, 2, 4, 2.0);
+    add(cells::hierarchy("C03"), 1, 2, 4, 1.0);
+    add(cells::rates("C03"), 1, 2, 4, 1.0);
+    add(cells::wiring("C03", TickWiring::EveryFrame, 10), 1, 2, 4, 1.0);
     v
 }
 
